@@ -14,7 +14,9 @@ THEOREMS = ['C08_versions_members', 'C08_versions_sorted', 'C08_subquery_strateg
 RULE = ('random version tables (1-4 entities, flat or composite keys, transaction ids drawn from 1..14 and '
         'interleaved, default/custom column names, both strategies; validity tables carry a consistent chain) '
         'are loaded into the real version table with Core INSERTs; parent.versions, and index/next/previous of '
-        'every version object are read through the ORM. Non-trivial: >= 2 entities whose transaction ids '
+        'every version object are read through the ORM; every fourth case is end to end: a random write program '
+        '(2-3 keys, several keys per transaction, deletes and re-creations) is run through the real ORM and the '
+        'accessors are read on the table it left, with no chain hypothesis. Non-trivial: >= 2 entities whose transaction ids '
         'interleave and some entity with >= 3 versions. Distinct: by hash of the canonical input.')
 ASSUMPTIONS = ['the version table primary key (parent key, transaction id) is enforced by the database (pk_unique)',
                'validity-strategy navigation is claimed for tables satisfying the validity chain (C03 provides it)']
@@ -24,11 +26,42 @@ def budget(tier):
     return 320 if tier == 'quick' else 4000
 
 
+def gen_prog(rng, cfg):
+    """A write program for the real ORM: transactions of add / set / del over 2-3 keys (several keys per transaction,
+    interleaved afterwards, deleted and re-created keys); a last transaction re-creates every key left deleted, so
+    that every key of the table has a live parent whose `versions` can be read."""
+    keys = []
+    while len(keys) < rng.choice([2, 3, 3]):
+        k = T.gen_key(rng, cfg)
+        if k not in keys:
+            keys.append(k)
+    live, prog = set(), []
+    for _ in range(rng.randint(3, 7)):
+        tx = []
+        for i in rng.sample(range(len(keys)), rng.choice([1, 1, 2, 2, len(keys)])):
+            dat = [rng.choice([None, 0, 1, 2, 3]), rng.choice([None, 0, 1, 2, 3])]
+            if i not in live:
+                tx.append(['add', keys[i], dat]); live.add(i)
+            elif rng.random() < 0.2:
+                tx.append(['del', keys[i]]); live.discard(i)
+            else:
+                tx.append(['set', keys[i], dat])
+        prog.append(tx)
+    last = [['add', keys[i], [0, 0]] for i in range(len(keys)) if i not in live]
+    if last:
+        prog.append(last)
+    return prog
+
+
 def gen_cases(rng, n, tier):
     out = []
     for i in range(n):
         cfg = T.CFGS[i % len(T.CFGS)]
-        out.append(dict(cfg=cfg, rows=T.gen_table(rng, cfg)))
+        if i % 4 == 3:
+            # end to end: the table is WRITTEN by the code (no chain hypothesis: the write path has to provide it)
+            out.append(dict(cfg=cfg, prog=gen_prog(rng, cfg)))
+        else:
+            out.append(dict(cfg=cfg, rows=T.gen_table(rng, cfg)))
     return out
 
 
@@ -40,12 +73,52 @@ def corpus():
             dict(key=[1], tx=5, end=None, op=1, dat=[0, 1])]
     rows_v = json.loads(json.dumps(rows))
     T.fill_chain(rows_v)
-    return [dict(cfg=c, rows=rows), dict(cfg=v, rows=rows_v)]
+    # two keys versioned in one transaction, the first again later, then the second (a predecessor search that is
+    # not restricted to the key re-closes the first key's row)
+    prog = [[['add', [1], [1, 1]], ['add', [2], [1, 1]]], [['set', [1], [2, 1]]], [['set', [2], [1, 2]]],
+            [['set', [1], [3, 1]]]]
+    return [dict(cfg=c, rows=rows), dict(cfg=v, rows=rows_v), dict(cfg=v, prog=prog), dict(cfg=c, prog=prog)]
 
 
-def _observe(env, cfg, rows):
+def _write(env, cfg, prog):
+    """Run a write program through the real ORM on emptied tables; returns the version table it left."""
     import sqlalchemy as sa
-    T.load_rows(env, cfg, rows)
+    Article = env.Article
+    kc = T.keycols(cfg)
+    conn = env.connection
+    conn.execute(env.version_class(Article).__table__.delete())
+    conn.execute(Article.__table__.delete())
+    conn.commit()
+    s = env.session()
+    try:
+        for tx in prog:
+            for op in tx:
+                ident = tuple(op[1]) if len(op[1]) > 1 else op[1][0]
+                if op[0] == 'add':
+                    o = Article(**dict(zip(kc, op[1])))
+                    o.a, o.b = op[2]
+                    s.add(o)
+                elif op[0] == 'set':
+                    o = s.get(Article, ident)
+                    o.a, o.b = op[2]
+                else:
+                    s.delete(s.get(Article, ident))
+            s.commit()
+    finally:
+        s.close()
+    return T.read_rows(env, cfg)
+
+
+def _observe(env, cfg, rows, prog=None):
+    import sqlalchemy as sa
+    if prog is not None:
+        try:
+            rows = _write(env, cfg, prog)
+        except Exception as e:
+            return dict(vers=[], rows=[], exc='write: %s: %s' % (type(e).__name__, str(e)[:200]), tbl=[])
+    else:
+        T.load_rows(env, cfg, rows)
+    tbl = rows
     txc, endc = T.colnames(cfg)
     kc = T.keycols(cfg)
     Article = env.Article
@@ -64,9 +137,9 @@ def _observe(env, cfg, rows):
                               next=None if nx is None else getattr(nx, txc),
                               prev=None if pv is None else getattr(pv, txc)))
         orows.sort(key=lambda o: (o['key'], o['tx']))
-        return dict(vers=vers, rows=orows, exc=None)
+        return dict(vers=vers, rows=orows, exc=None, tbl=tbl)
     except Exception as e:   # the accessors must not raise
-        return dict(vers=[], rows=[], exc='%s: %s' % (type(e).__name__, str(e)[:200]))
+        return dict(vers=[], rows=[], exc='%s: %s' % (type(e).__name__, str(e)[:200]), tbl=tbl)
     finally:
         s.close()
 
@@ -75,15 +148,15 @@ def _worker(chunk):
     cfg, items = chunk
     out = []
     with E.Env(options=T.cfg_options(cfg), build=T.build_article(cfg)) as env:
-        for idx, rows in items:
-            out.append((idx, _observe(env, cfg, rows)))
+        for idx, rows, prog in items:
+            out.append((idx, _observe(env, cfg, rows, prog)))
     return out
 
 
 def run_impl(cases):
     groups = {}
     for i, c in enumerate(cases):
-        groups.setdefault(json.dumps(c['cfg'], sort_keys=True), []).append((i, c['rows']))
+        groups.setdefault(json.dumps(c['cfg'], sort_keys=True), []).append((i, c.get('rows'), c.get('prog')))
     chunks = []
     for k, items in groups.items():
         cfg = json.loads(k)
@@ -101,13 +174,14 @@ def encode(case, obs):
     vers = glist(obs['vers'], lambda kv: gpair(glist(kv[0]), glist(kv[1])))
     rows = glist(obs['rows'], lambda o: '{| or_key := %s; or_tx := %s; or_index := %s; or_next := %s; or_prev := %s |}' % (
         glist(o['key']), gZ(o['tx']), gnat(o['index']), gopt(o['next']), gopt(o['prev'])))
-    return '{| c8_validity := %s; c8_tbl := %s; c8_vers := %s; c8_rows := %s; c8_exc := %s |}' % (
-        gbool(case['cfg']['strategy'] == 'validity'), T.gtable(case['rows']), vers, rows, gbool(obs['exc'] is not None))
+    return '{| c8_validity := %s; c8_e2e := %s; c8_tbl := %s; c8_vers := %s; c8_rows := %s; c8_exc := %s |}' % (
+        gbool(case['cfg']['strategy'] == 'validity'), gbool('prog' in case), T.gtable(obs['tbl']), vers, rows,
+        gbool(obs['exc'] is not None))
 
 
 def nontrivial(case, obs):
     by = {}
-    for r in case['rows']:
+    for r in obs['tbl']:
         by.setdefault(tuple(r['key']), []).append(r['tx'])
     if len(by) < 2 or max(len(v) for v in by.values()) < 3:
         return False
@@ -122,7 +196,7 @@ def nontrivial(case, obs):
 
 def features(case, obs):
     f = ['strategy=' + case['cfg']['strategy'], 'key=' + case['cfg']['keyshape'], 'names=' + case['cfg']['names'],
-         'rows=%d' % min(len(case['rows']), 12)]
+         'rows=%d' % min(len(obs['tbl']), 12), 'written_by_code' if 'prog' in case else 'loaded']
     if obs['exc']:
         f.append('exception')
     return f
@@ -130,6 +204,12 @@ def features(case, obs):
 
 def shrink(case):
     out = []
+    if 'prog' in case:
+        p = case['prog']
+        for i in range(len(p)):
+            if len(p) > 1:
+                out.append(dict(cfg=case['cfg'], prog=p[:i] + p[i + 1:]))
+        return [c for c in out if _prog_ok(c['prog'])]
     for rows in T.shrink_rows(case['rows']):
         if case['cfg']['strategy'] == 'validity':
             T.fill_chain(rows)
@@ -137,5 +217,16 @@ def shrink(case):
     return out
 
 
+def _prog_ok(prog):
+    live = set()
+    for tx in prog:
+        for op in tx:
+            k = tuple(op[1])
+            if (op[0] == 'add') == (k in live):
+                return False
+            live.add(k) if op[0] == 'add' else (live.discard(k) if op[0] == 'del' else None)
+    return True
+
+
 def describe(case, obs):
-    return dict(cfg=case['cfg'], version_table_rows=case['rows'], observed=obs)
+    return dict(cfg=case['cfg'], write_program=case.get('prog'), version_table_rows=obs['tbl'], observed=obs)
